@@ -17,5 +17,6 @@ typedef struct race_rec { uintptr_t addr; void *pc_a, *pc_b; uint8_t write_a, wr
  * scheduling points listed in pre[0..n) (ascending); a finishing thread hands over to the other */
 void sched_run(void (*b0)(void), void (*b1)(void), int first, const uint32_t *pre, int n);
 const race_rec *sched_races(int *n);
+extern void (*vf_access_observer)(const void *addr, size_t n, int is_write);   /* sees every instrumented access, also outside the scheduler */
 void vf_tsan_range(const void *p, size_t n, int is_write, void *pc);
 #endif
